@@ -166,6 +166,25 @@ def ro_workload(ver, maxbuf):
     return {"ver": ver, "maxbuf": maxbuf, "mode": "ro_faults", "streams": streams, "ops": ops}
 
 
+def ro_small_workload(ver, maxbuf):
+    """Several very short streams created first in a fresh file, so that their mini sector numbers are 0, 1, 2, 3 ... - numbers
+    that, misread as REGULAR sector numbers, name the FAT, directory and MiniFAT sectors (one-sector chains): a failure while
+    such a stream is read must surface as an error, not as a second attempt somewhere else."""
+    f = gens.Fill()
+    rng = random.Random(13)
+    streams = [{"name": "k1", "runs": [[f.next(), 64]]}, {"name": "k2", "runs": [[f.next(), 40], [f.next(), 60]]},
+               {"name": "k3", "runs": [[f.next(), 300], [f.next(), 200]]}, {"name": "k4", "runs": [[f.next(), 30]]},
+               {"name": "bar", "runs": f.runs(rng, 5000)}]
+    ops = [{"op": "open"}, {"op": "open"}]
+    for name in ("k2", "k1", "k4", "k3"):
+        ops += [{"op": "open_stream", "name": name}, {"op": "open_stream", "name": name}]
+        for _ in range(2):
+            ops += [{"op": "seek", "whence": "start", "d": 0, "sym": ""}, {"op": "read", "n": 700}, {"op": "position"},
+                    {"op": "read", "n": 700}, {"op": "position"}]
+        ops += [{"op": "seek", "whence": "start", "d": 0, "sym": ""}, {"op": "read_to_end"}, {"op": "close"}]
+    return {"ver": ver, "maxbuf": maxbuf, "mode": "ro_faults", "streams": streams, "ops": ops}
+
+
 def ro_open_workload(ver, maxbuf, twice=True):
     """Faults while a file of SEVERAL FAT sectors is opened (version 3: more than 64 KiB), then reads at both ends of the long
     stream and of a short one whose mini sectors lie behind it: a table that was assembled wrongly because a failed read was
